@@ -85,6 +85,21 @@ class Result(object):
     def count(self, name, n=1):
         self.counts[name] = self.counts.get(name, 0) + n
 
+    def share(self, rule_id, text, other_prop, fn, *args):
+        """Run a rule of another property and report its obligations and
+        findings under ``rule_id`` of this property (one mechanism, several
+        properties depend on it)."""
+        self.rule(rule_id, text)
+        tmp = Result(other_prop)
+        tmp.run_rule(fn, *[tmp if a is Result else a for a in args])
+        for (r, w, i, v, nt) in tmp.obligations:
+            self.ob(rule_id, w, i, v, nt)
+        for f in tmp.findings:
+            self.finding(rule_id, f.key, f.where, f.message)
+        self.errors.extend(tmp.errors)
+        self.unclassified.extend(tmp.unclassified)
+        self.info.extend(tmp.info)
+
     def floor(self, rule, what, got, need):
         """Instance floor: fewer matches than confirmed by hand means the
         rule would pass vacuously -> analysis error."""
